@@ -927,6 +927,20 @@ class InstanceState(interfaces.InspectionAttrInfo, Generic[_O]):
                     "Can't flag attribute '%s' modified; it's not present in "
                     "the object state" % attr.key
                 )
+            if (
+                self.session_id
+                and not self.modified
+                and self.session_id in _sessions
+            ):
+                # establish the session transaction before any state is
+                # changed: if autobegin fails (autobegin=False and no
+                # transaction in progress) the change event must leave no
+                # trace (committed_state entry, modified flag, entry in
+                # identity_map._modified)
+                session = _sessions[self.session_id]
+                if session._transaction is None:
+                    session._autobegin_t()
+
             if attr.key not in self.committed_state or is_userland:
                 if collection:
                     if TYPE_CHECKING:
